@@ -143,6 +143,35 @@ def run(ctx):
             else:
                 o3.holds(fn, g.stubs_def, f"no sort/reverse effect on `{g.stubs}` or its elements")
 
+    for qn in gen_common.GENERATORS:
+        with ctx.obligation("C03.4", "a private generator used for the shuffles is created once per call, from a seed that differs between calls") as o4:
+            try:
+                g = gen_common.Gen(prog, qn)
+            except Exception as e:          # the generator itself is judged (or found unanalysable) by C03.1
+                o4.undecided(f"generator not analysable: {e}", prog.func(qn) if qn in prog.functions else None)
+                continue
+            priv = [(c, g.private_rng(c.func.value)) for c, _ in g.shuffle_calls() if isinstance(c.func, ast.Attribute) and g.private_rng(c.func.value) is not None]
+            if not priv:
+                o4.holds(g.fn, g.fn.node, "the shuffles draw from the module-level generator")
+                continue
+            for call, ctor in priv:
+                site = g.rng_site(call.func.value)
+                loops = g.par.loops_of(site if isinstance(site, ast.AST) else call)
+                seed = ctor.args[0] if ctor.args else next((k.value for k in ctor.keywords if k.arg in ("x", "seed")), None)
+                if seed is not None and astx.const_value(g.sc.resolve(seed)) is not None and not isinstance(astx.const_value(g.sc.resolve(seed)), type(None)):
+                    o4.violated(g.fn, ctor, f"the generator is created from the constant seed `{txt(seed)}`: every call produces the same placement", shape_free=True)
+                    continue
+                if loops and seed is not None:
+                    bound_in_loop = {x.id for l in loops for x in ast.walk(l) if isinstance(x, ast.Name) and isinstance(x.ctx, ast.Store)}
+                    seed_names = astx.names_in(seed)
+                    variant = bool(seed_names & bound_in_loop) or any(isinstance(x, ast.Call) for x in ast.walk(seed))
+                    if not variant:
+                        o4.violated(g.fn, ctor, f"`{txt(ctor)}` is created anew inside the loop over the stub lists from the loop-invariant seed `{txt(seed)}`: every topology is "
+                                                "shuffled by the SAME stream, so stub lists of equal length receive the same permutation - placements are not independent per topology",
+                                    shape_free=True)
+                        continue
+                o4.holds(g.fn, ctor, "private generator created from a per-call seed" + (" outside the stub loop" if not loops else " that varies with the topology"))
+
     with ctx.obligation("C03.3", "the package never reseeds the global RNG") as o:
         seeds = []
         for fn in prog.all_functions():
